@@ -145,6 +145,14 @@ func render(doc writers.LDoc, lay writers.Layout, faults []fault) ([]byte, []sit
 				if o.Stream {
 					o.LengthOverride = f.Value
 				}
+			case "filter":
+				// the stream announces another filter (and decode parameters): Value is
+				// the new "/Filter ... /DecodeParms ..." text; the old keys are renamed
+				if o.Stream {
+					d := strings.ReplaceAll(o.Dict, "/Filter", "/XFilter")
+					d = strings.ReplaceAll(d, "/DecodeParms", "/XDecodeParms")
+					o.Dict = f.Value + " " + d // Dict is the inside of the dictionary
+				}
 			}
 		}
 	}
@@ -304,6 +312,48 @@ func runPDF(c *hx.Ctx, k kase, tag string) {
 	c.Case(fmt.Sprint(k.Seed, k.Faults), true)
 }
 
+// filterValues: every filter name of the PDF specification (and its abbreviation), alone
+// and in chains, with decode parameters at the edges of their ranges. The stream's data
+// stays what it was, so it is garbage for the announced filter.
+func filterValues() []string {
+	names := []string{"/CCITTFaxDecode", "/CCF", "/LZWDecode", "/LZW", "/RunLengthDecode", "/RL", "/DCTDecode", "/JPXDecode", "/JBIG2Decode",
+		"/Crypt", "/ASCIIHexDecode", "/AHx", "/ASCII85Decode", "/A85", "/FlateDecode", "/Fl", "/Nope",
+		"[/AHx /CCF]", "[/CCF /CCF]", "[/Fl /CCF]", "[/CCF /Fl]"}
+	parms := []string{"", "<< /Columns 0 >>", "<< /K -1 /Columns 0 >>", "<< /K 1 /Columns 0 /Rows 2147483648 >>", "<< /Columns -1 >>",
+		"<< /K -1 /Columns 1 /Rows -1 >>", "<< /Columns 9223372036854775807 /Rows 9223372036854775807 >>", "<< /K -1 /Columns 1048576 /Rows 0 >>",
+		"<< /K 0 /Columns 8 /Rows 9223372036854775807 /BlackIs1 true >>", "<< /Predictor 12 /Columns 0 >>", "<< /Predictor 2 /Colors 0 /BitsPerComponent 0 >>",
+		"<< /EarlyChange 0 >>"}
+	var out []string
+	for _, n := range names {
+		for _, p := range parms {
+			v := "/Filter " + n
+			if p != "" {
+				if strings.HasPrefix(n, "[") {
+					v += " /DecodeParms [" + p + " " + p + "]"
+				} else {
+					v += " /DecodeParms " + p
+				}
+			}
+			out = append(out, v)
+		}
+	}
+	return out
+}
+
+// filterFaults runs every filterValues entry on every stream of one document.
+func filterFaults(c *hx.Ctx, d int, seed uint64) {
+	doc, lay := docFor(seed)
+	_, info, _ := render(doc, lay, nil)
+	for _, si := range info {
+		if !si.stream {
+			continue
+		}
+		for _, v := range filterValues() {
+			runPDF(c, kase{Format: "pdf", Doc: d, Seed: seed, Faults: []fault{{Kind: "filter", Ordinal: si.ordinal, Value: v}}, Layout: lay}, "p")
+		}
+	}
+}
+
 // pdfCatalogue enumerates all single faults of one document.
 func pdfCatalogue(doc writers.LDoc, lay writers.Layout) []fault {
 	data, info, nx := render(doc, lay, nil)
@@ -340,6 +390,9 @@ func pdfCatalogue(doc writers.LDoc, lay writers.Layout) []fault {
 			out = append(out, fault{Kind: "data-trunc", Ordinal: si.ordinal, Site: si.dataLen / 2}, fault{Kind: "data-trunc", Ordinal: si.ordinal, Site: 1})
 			for _, v := range append(numValues, fmt.Sprintf("%d 0 R", si.num), "9999 0 R", "(x)", "-5") {
 				out = append(out, fault{Kind: "length", Ordinal: si.ordinal, Value: v})
+			}
+			for _, v := range filterValues() {
+				out = append(out, fault{Kind: "filter", Ordinal: si.ordinal, Value: v})
 			}
 		}
 	}
@@ -589,7 +642,7 @@ func cmapExtremes(c *hx.Ctx, seed uint64, n int) {
 }
 
 func Run(c *hx.Ctx) {
-	c.Rep.Rule = "valid documents of all seven formats from the harness writers (PDF in random physical layouts, DOCX, ODT, XLSX, PPTX, EPUB, HTML) x every single fault of the catalogue at every site (numbers -> 0,-1,2^31,2^63-1; references -> self/root/missing; delimiters removed/added; objects/members dropped/duplicated; stream data flipped/truncated; /Length, xref entries, /W, /Prev, /Size, trailer; truncation at token boundaries; targeted field rewrites) + sampled double faults + byte mutation + hostile token soup into the raw parsers; every case runs 5-6 public entry points under a 10 s deadline and a 3 GiB heap limit; every case is non-trivial"
+	c.Rep.Rule = "valid documents of all seven formats from the harness writers (PDF in random physical layouts, DOCX, ODT, XLSX, PPTX, EPUB, HTML) x every single fault of the catalogue at every site (numbers -> 0,-1,2^31,2^63-1; references -> self/root/missing; delimiters removed/added; objects/members dropped/duplicated; stream data flipped/truncated; every stream re-announced under every filter name/abbreviation/chain with edge decode parameters (full sweep on the first documents); /Length, xref entries, /W, /Prev, /Size, trailer; truncation at token boundaries; targeted field rewrites) + sampled double faults + byte mutation + hostile token soup into the raw parsers; every case runs 5-6 public entry points under a 10 s deadline and a 3 GiB heap limit; every case is non-trivial"
 	xrefStreamOps(c)
 	gridOps(c)
 	ptreeOps(c)
@@ -612,6 +665,9 @@ func Run(c *hx.Ctx) {
 		for i := 0; i < c.N(60, 1500); i++ {
 			runPDF(c, kase{Format: "pdf", Doc: d, Seed: seed, Faults: []fault{hx.Pick(r, cat), hx.Pick(r, cat)}, Layout: lay}, "p")
 		}
+	}
+	for d := 0; d < c.N(2, 12); d++ {
+		filterFaults(c, d, c.Seed*1000+uint64(d))
 	}
 	xlsxFaults(c, c.Seed, c.N(250, 5000))
 	for _, f := range ZipFormats {
